@@ -485,6 +485,13 @@ fn noisy_build_inner(kind: u8, geom: Geom, kvs: &[Kv], mask: u8) -> Result<(Vec<
                 if mask & 1 != 0 && noise(|| b.extend_iter(std::iter::once((k, Output::new(1)))).is_ok())? {
                     note(&mut accepted, &mut stray, "raw extend_iter", k, 1, k);
                 }
+                // `add` of the non-empty key just inserted: the set path tolerates a repeat of
+                // the last key, so this is a no-op (what `add` does with OTHER keys after
+                // `insert`, and with the empty key - whose value it resets -, is outside the
+                // properties, see DESIGN.md 12.10)
+                if mask & 1 != 0 && !k.is_empty() && !noise(|| b.add(k).is_ok())? {
+                    return Err(format!("{} add() of the key just inserted was rejected", USAGE_SKIP));
+                }
             }
             Ok((e2s(b.into_inner())?, accepted, stray))
         }
